@@ -1,5 +1,5 @@
 SPECIFICATION Spec
 CONSTANTS
-  NLayers = 3
+  NLayers = 2
   Separate = TRUE
 CHECK_DEADLOCK FALSE
